@@ -158,6 +158,8 @@ def run_std(rs, ctx, l, p, e):
                 for j in range(len(row)):
                     row[j] = row[j] * k_
     use_q = ctxual or bool(rs.integers(2))
+    # the next request, written into the caller's request buffer in place (same array object, same shape, other rows)
+    Q2 = [list(x) for x in reversed(Q)] if len(Q) > 1 else [list(reversed(Q[0]))]
     warm = gen.gen_warm(rs, cfg["arms"]) if p == "none" else None
     outs = {}
     for enc in ("list", e):
@@ -173,11 +175,21 @@ def run_std(rs, ctx, l, p, e):
                 o += [["EXC", type(ex).__name__]]
             o.append(call(m, "predict_expectations", enc, X=[list(x) for x in Q] if use_q else None))
             o.append(call(m, "predict", enc, X=[list(x) for x in Q] if use_q else None))
+            if use_q and Q2 != Q:
+                o.append(call(m, "predict_expectations", enc, X=[list(x) for x in Q2]))
         else:
             o.append(call(m, "fit", enc, b1))
             o.append(call(m, "partial_fit", enc, b2))
-            o.append(call(m, "predict_expectations", enc, X=enc2(Q, enc) if use_q else None))
-            o.append(call(m, "predict", enc, X=enc2(Q, enc) if use_q else None))
+            qbuf = enc2(Q, enc) if use_q else None
+            o.append(call(m, "predict_expectations", enc, X=qbuf))
+            o.append(call(m, "predict", enc, X=qbuf))
+            if use_q and Q2 != Q:
+                if isinstance(qbuf, np.ndarray) and qbuf.flags.writeable:
+                    qbuf[...] = np.asarray(Q2, dtype=float)
+                    ctx.count("request_buffers_overwritten_in_place")
+                else:
+                    qbuf = enc2(Q2, enc)
+                o.append(call(m, "predict_expectations", enc, X=qbuf))
         if warm is not None:
             feats = {a: (list(f) if enc == "list" else np.asarray(f)) for a, f in warm["features"]}
             try:
